@@ -323,6 +323,66 @@ def gen_case(rng, kind):
         dflt = [None, None] if d < 0.1 else ([191300 * G, None] if d < 0.15 else [191300 * G, 196100 * G])
         return {'kind': 'fcr', 'amps': gen_amp_bandsets(rng), 'dmin': dflt[0], 'dmax': dflt[1],
                 'dsp': rng.choice([50 * G, 50 * G, 75 * G, 12500000000])}
+    if kind == 'fcrg':
+        c = gen_case(rng, 'fcr')
+        c['kind'] = 'fcrg'
+        if rng.random() < 0.7:
+            c['dmin'] = c['dmax'] = None                   # the way network.set_per_degree_design_band calls it
+        u = rng.random()
+        if u < 0.15:
+            c['ddb'] = None
+        elif u < 0.25:
+            c['ddb'] = []
+        else:
+            ddb = []
+            for lo, hi in rng.sample([(C_LO, C_HI), (L_LO, L_HI), (S_LO, S_HI), (186 * T, 200500 * G)], rng.choice([1, 2, 2, 3])):
+                ddb.append({'f_min': lo + jitter(rng) + rng.choice([0, 0, 500 * G]), 'f_max': hi + jitter(rng) - rng.choice([0, 0, 500 * G]),
+                            'spacing': rng.choice([None, 50 * G, 75 * G, 100 * G, 37500000000, 62500000000])})
+            c['ddb'] = ddb
+        return c
+    if kind == 'cts':
+        bands = gen_bandset(rng)
+        chs = gen_carriers(rng, bands, nmax=rng.choice([1, 3, 6, 12, 20]))
+        c = {'kind': 'cts', 'chs': chs, 'defect': 'none'}
+        if rng.random() < 0.2 and chs:
+            for _ in range(20):
+                cc = copy.deepcopy(chs)
+                d = spoil(rng, cc)
+                if len({float(x['f']) for x in cc}) == len(cc):      # dict keys are distinct
+                    c['chs'], c['defect'] = cc, d
+                    break
+        c['perm'] = rng.sample(range(len(c['chs'])), len(c['chs']))
+        return c
+    if kind == 'cols':
+        bands = gen_bandset(rng)
+        chs = gen_carriers(rng, bands, nmax=rng.choice([2, 3, 6, 12]))
+        n = len(chs)
+        lens = {k: n for k in ('b', 'w', 'label', 'osnr', 'txp', 'dpdb', 'ro')}
+        if rng.random() < 0.7:
+            for k in rng.sample(sorted(lens), rng.choice([1, 1, 2])):
+                lens[k] = rng.choice([m for m in (0, 2, 3, n - 1, n + 1, n + 2, 2 * n) if m != n and m != 1] or [n + 1])
+        return {'kind': 'cols', 'chs': chs, 'lens': lens}
+    if kind == 'grid':
+        fmin = rng.choice([186e12, 191.3e12, 191.325e12, 193.4755e12, 191.3e12 + 0.5, float(rng.randrange(186 * T, 196 * T)),
+                           rng.uniform(186e12, 196e12)])
+        sp = rng.choice([50e9, 50e9, 37.5e9, 75e9, 12.5e9, 6.25e9, 100e9, 62.5e9, 87.5e9, 1e11 / 3, 12.5e9 / 3, 33.3e9,
+                         50e9 * 1.0000001, 6.25e9 * 1.1, 0.1e12 / 7, 1e10 * 3.3])
+        n = rng.choice([0, 1, 2, 3, 5, 8, 13, 24, 40, 60])
+        delta = rng.choice([0.0, 0.0, 0.0, 1.0, -1.0, sp / 2, -sp / 2, sp - 1, 0.03125, -0.03125])
+        fmax = fmin + sp * n + delta
+        baud = rng.choice([min(32e9, sp * 0.64), sp, sp, sp - 1, sp * 0.5, sp * (1 + 2 ** -40)])
+        u = rng.random()
+        if u < 0.10:
+            baud = sp + rng.choice([1.0, 0.5, 1e9])
+        elif u < 0.13:
+            sp = 0.0
+        elif u < 0.16:
+            sp = -sp
+        elif u < 0.19:
+            fmax = fmin - rng.choice([0.0, 1.0, 50e9])
+        return {'kind': 'grid', 'fmin': fmin, 'fmax': fmax, 'sp': sp, 'baud': baud,
+                'ro': rng.choice([0.15, 0.1]), 'osnr': rng.choice([40, 35.5]), 'txp': rng.choice([1e-3, 5e-4]),
+                'dpdb': rng.choice([0, 0, 1.5])}
     if kind in ('filter', 'fpath'):
         wf = rng.random() < (0.8 if kind == 'fpath' else 0.6)
         path, ok = gen_fake_path(rng, wf)
@@ -394,6 +454,8 @@ def exc_s(e):
             return 'E:SpectrumError:overlap'
         if 'baud rate' in m:
             return 'E:SpectrumError:baud'
+        if 'Dimension mismatch' in m:
+            return 'E:SpectrumError:dimension'
         return 'E:SpectrumError:?'
     return 'E:' + n
 
@@ -551,6 +613,64 @@ def drive(case):
         except Exception as e:
             line = exc_s(e)
         return line, obs
+    if kind == 'fcrg':
+        amps = [[{k: f_(v) for k, v in b.items()} for b in a] for a in case['amps']]
+        ddb = None if case['ddb'] is None else [{k: f_(v) for k, v in b.items()} for b in case['ddb']]
+        try:
+            r = find_common_range(amps, f_(case['dmin']), f_(case['dmax']), f_(case['dsp']), ddb)
+            line = ';'.join(','.join(frac_s(b.get(k)) for k in ('f_min', 'f_max', 'spacing')) for b in r)
+            obs['r'] = r
+        except Exception as e:
+            line = exc_s(e)
+        return line, obs
+    if kind == 'cts':
+        chs = case['chs']
+        idmap = {ident(c): c['id'] for c in chs}
+        try:
+            si = build_si(chs, 'carriers') if chs else build_si(chs)
+            ids = ids_of(si, idmap)
+            line = ids_s(ids)
+            obs['ids'] = ids
+        except Exception as e:
+            line = exc_s(e)
+        try:
+            pch = [chs[k] for k in case['perm']]
+            si2 = build_si(pch, 'carriers') if pch else build_si(pch)
+            obs['perm'] = ids_s(ids_of(si2, idmap))
+        except Exception as e:
+            obs['perm'] = exc_s(e)
+        return line, obs
+    if kind == 'cols':
+        from gnpy.core.info import create_arbitrary_spectral_information
+        chs, lens = case['chs'], case['lens']
+        idmap = {ident(c): c['id'] for c in chs}
+
+        def col(key, conv):
+            v = [conv(c[key]) for c in chs]
+            m = lens[key]
+            return (v + [v[-1]] * m)[:m] if v else v
+        try:
+            txp = col('txp', float)
+            si = create_arbitrary_spectral_information(
+                frequency=[float(c['f']) for c in chs], slot_width=col('w', float), baud_rate=col('b', float), pch=txp,
+                tx_osnr=col('osnr', float), tx_power=txp, delta_pdb_per_channel=col('dpdb', float),
+                roll_off=col('ro', float), label=col('label', str))
+            line = ids_s(ids_of(si, idmap))
+        except Exception as e:
+            line = exc_s(e)
+        return line, obs
+    if kind == 'grid':
+        from gnpy.core.info import create_input_spectral_information
+        try:
+            si = create_input_spectral_information(f_min=case['fmin'], f_max=case['fmax'], roll_off=case['ro'],
+                                                   baud_rate=case['baud'], spacing=case['sp'], tx_osnr=case['osnr'],
+                                                   tx_power=case['txp'], delta_pdb=case['dpdb'])
+            obs['si'] = {a: list(getattr(si, a)) for a in ID_ATTRS}
+            obs['n'] = si.number_of_channels
+            line = f'{si.number_of_channels};' + ','.join(repr(float(x)) for x in si.frequency)
+        except Exception as e:
+            line = exc_s(e)
+        return line, obs
     if kind in ('filter', 'fpath', 'elem'):
         chs = case['chs']
         idmap = {ident(c): c['id'] for c in chs}
@@ -702,6 +822,91 @@ def cr_spec_fails(result, amps, dflt, slots=()):
     return out
 
 
+def cr_spacing_fails(result, amps):
+    """common_range_spacing on the implementation's output: with at least one valid amplifier every returned band
+    carries a spacing, and for every valid amplifier it lies inside one of its bands whose declared spacing (if any)
+    does not exceed it"""
+    fr = Fraction
+    valid = [a for a in amps if all(b.get('f_min') is not None and b.get('f_max') is not None for b in a)]
+    if not valid:
+        return []
+    out = []
+    for r in result:
+        if r.get('spacing') is None:
+            out.append(f'returned band {r} has no spacing')
+            continue
+        for a in valid:
+            if not any(fr(b['f_min']) <= fr(r['f_min']) and fr(r['f_max']) <= fr(b['f_max'])
+                       and (b.get('spacing') is None or fr(b['spacing']) <= fr(r['spacing'])) for b in a):
+                out.append(f'returned band {r}: no band of amplifier {a} contains it with a declared spacing <= its spacing')
+                break
+    return out[:2]
+
+
+def grid_exact(case, n):
+    """are all float expressions formed for the grid exact (frequencies and slot edges)?"""
+    fr = Fraction
+    fmin, sp = case['fmin'], case['sp']
+    for i in range(1, n + 1):
+        f = fmin + sp * i
+        if fr(f) != fr(fmin) + fr(sp) * i:
+            return False
+        if fr(f + sp / 2) != fr(f) + fr(sp) / 2 or fr(f - sp / 2) != fr(f) - fr(sp) / 2:
+            return False
+    return True
+
+
+def grid_spec_n(case):
+    fr = Fraction
+    if case['sp'] == 0:
+        return None
+    q = (fr(case['fmax']) - fr(case['fmin'])) / fr(case['sp'])
+    return q.numerator // q.denominator
+
+
+def oracle_grid(case, line, obs):
+    fails = []
+    fr = Fraction
+    sp, baud, fmin, fmax = case['sp'], case['baud'], case['fmin'], case['fmax']
+    if sp <= 0:
+        return fails                      # outside the domain of the theorems (correspondence only)
+    n = grid_spec_n(case)
+    if n < 0:
+        return fails                      # f_max < f_min: numpy refuses the negative array size (correspondence only)
+    exact = grid_exact(case, n)
+    if line.startswith('E:'):
+        if baud > sp and n >= 1:
+            if line != 'E:SpectrumError:baud' and exact:
+                fails.append(('grid_wrong_error', f'baud > spacing but {line}'))
+        elif exact:
+            fails.append(('grid_rejected', f'uniform grid of {n} channels rejected with {line}'))
+        return fails
+    if baud > sp and n >= 1:
+        fails.append(('not_rejected', f'baud rate {baud} > spacing {sp} accepted'))
+    si = obs['si']
+    if obs['n'] != n or any(len(v) != n for v in si.values()):
+        fails.append(('grid_count', f'{obs["n"]} channels, automatic_nch = floor((f_max - f_min) / spacing) = {n}'))
+        return fails
+    f = [fr(float(x)) for x in si['frequency']]
+    for i, x in enumerate(f, 1):
+        want = fr(fmin) + fr(sp) * i
+        if abs(x - want) > abs(want) * fr(1, 10 ** 12):
+            fails.append(('grid_frequency', f'channel {i} on {float(x)} Hz, f_min + i * spacing = {float(want)}'))
+            break
+    if any(a >= b for a, b in zip(f[:-1], f[1:])):
+        fails.append(('grid_not_increasing', 'frequencies not strictly increasing'))
+    tol = fr(1, 8)
+    if f and (f[0] - fr(sp) / 2 < fr(fmin) + fr(sp) / 2 - tol or f[-1] > fr(fmax) + tol):
+        fails.append(('grid_outside', f'first centre {float(f[0])}, last centre {float(f[-1])} for [{fmin}, {fmax}]'))
+    lab = f'{baud * 1e-9 :.2f}G'
+    uni = {'baud_rate': baud, 'slot_width': sp, 'label': lab, 'tx_osnr': case['osnr'], 'tx_power': case['txp'],
+           'delta_pdb_per_channel': case['dpdb'], 'roll_off': case['ro']}
+    for a, v in uni.items():
+        if any((str(x) != v) if a == 'label' else (float(x) != float(v)) for x in si[a]):
+            fails.append(('grid_attribute', f'{a} is not {v!r} on every channel'))
+    return fails
+
+
 def slots_of(chs):
     return [(lo2(c) / 2, hi2(c) / 2) for c in chs if c['w'] > 0]
 
@@ -755,9 +960,30 @@ def oracle(case, line, obs):
                 want = ids_s([c['id'] for c in sorted(allc, key=lambda c: Fraction(c['f']))])
                 if line != want:
                     fails.append(('mux_not_union', f'mux gave {line[:80]}, sorted union is {want[:80]}'))
-    elif kind == 'fcr' and 'r' in obs:
+    elif kind in ('fcr', 'fcrg') and 'r' in obs:
         for d in cr_spec_fails(obs['r'], case['amps'], (case['dmin'], case['dmax'])):
             fails.append(('common_range_spec', d))
+        for d in cr_spacing_fails(obs['r'], case['amps']):
+            fails.append(('common_range_spacing', d))
+    elif kind == 'cts':
+        chs = case['chs']
+        rej = spec_reject(chs)
+        if rej and line != f'E:SpectrumError:{rej}':
+            fails.append(('not_rejected', f'{rej} present but carriers_to_spectral_information returned {line[:60]}'))
+        if not rej:
+            if line.startswith('E:'):
+                fails.append(('spurious_reject', f'valid carrier dict rejected with {line}'))
+            else:
+                if any(str(i).startswith('?') for i in obs.get('ids', [])):
+                    fails.append(('attributes_detached', f'array entries {obs["ids"]} ("?k": the attributes at position k are not '
+                                  'those of the carrier on that frequency)'))
+                want = [c['id'] for c in sorted(chs, key=lambda c: Fraction(c['f']))]
+                if line != ids_s(want):
+                    fails.append(('not_sorted_intact', f'arrays {line[:80]} != carriers in frequency order {ids_s(want)[:80]}'))
+        if obs.get('perm') != line:
+            fails.append(('order_dependent', f'same carriers, other dict order: {line[:60]} vs {obs.get("perm", "")[:60]}'))
+    elif kind == 'grid':
+        fails += oracle_grid(case, line, obs)
     if kind in ('filter', 'fpath') and 'cr' in obs:
         for d in cr_spec_fails(obs['cr'], declared_amp_bands(case['path']), case['si'][:2], slots_of(case['chs'])):
             fails.append(('common_range_spec', 'path common range: ' + d))
@@ -831,6 +1057,27 @@ def coq_term(case):
         return f'run_demux {chl(case["chs"])} ({bl(case["band"])})'
     if k == 'mux':
         return f'run_mux {listlit([chl(p) for p in case["parts"]])}'
+    if k == 'cts':
+        d = listlit([f'kc {zlit(c["id"])} {qlit(float(c["f"]))} {qlit(float(c["b"]))} {qlit(float(c["w"]))}' for c in case['chs']])
+        return f'run_cts {d}'
+    if k == 'cols':
+        chs, lens = case['chs'], case['lens']
+
+        def col(key):
+            v = [qlit(float(c[key])) for c in chs]
+            m = lens[key]
+            return listlit((v + [v[-1]] * m)[:m] if v else v)
+        ids = listlit([zlit(c['id']) for c in chs]) + '%Z'
+        fs = listlit([qlit(float(c['f'])) for c in chs])
+        nn = ' '.join(f'{lens[key] if chs else 0}%nat' for key in ('label', 'osnr', 'txp', 'dpdb', 'ro'))
+        return f'run_cols {ids} {fs} {col("b")} {col("w")} {nn}'
+    if k == 'grid':
+        return f'run_grid {qlit(case["fmin"])} {qlit(case["fmax"])} {qlit(case["sp"])} {qlit(case["baud"])}'
+    if k == 'fcrg':
+        amps = listlit([listlit([f'rb {oq(b.get("f_min"))} {oq(b.get("f_max"))} {oq(b.get("spacing"))}' for b in a])
+                        for a in case['amps']])
+        ddb = listlit([f'mkB {qlit(float(b["f_min"]))} {qlit(float(b["f_max"]))} {oq(b.get("spacing"))}' for b in (case['ddb'] or [])])
+        return f'run_fcr_gen {amps} {oq(case["dmin"])} {oq(case["dmax"])} {qlit(float(case["dsp"]))} {ddb}'
     if k == 'fcr':
         amps = listlit([listlit([f'rb {oq(b.get("f_min"))} {oq(b.get("f_max"))} {oq(b.get("spacing"))}' for b in a])
                         for a in case['amps']])
@@ -1283,10 +1530,34 @@ def strip_np(obs):
 
 
 # ------------------------------------------------------------------ run
-KINDS = ['mk', 'demux', 'mux', 'fcr', 'filter', 'elem', 'fpath']
+KINDS = ['mk', 'demux', 'mux', 'fcr', 'filter', 'elem', 'fpath', 'cts', 'cols', 'grid', 'fcrg']
 CORR = {'mk': 'corr:Channels.mk_si', 'demux': 'corr:Channels.demux', 'mux': 'corr:Channels.mux',
         'fcr': 'corr:Channels.find_common_range', 'filter': 'corr:Channels.filter_si',
-        'elem': 'corr:Channels.elem_call', 'fpath': 'corr:Channels.propagate_path', 'net': 'corr:Channels.launch'}
+        'elem': 'corr:Channels.elem_call', 'fpath': 'corr:Channels.propagate_path', 'net': 'corr:Channels.launch',
+        'cts': 'corr:Channels.carriers_to_si', 'cols': 'corr:Channels.create_arbitrary_cols',
+        'grid': 'corr:Channels.create_input_si', 'fcrg': 'corr:Channels.find_common_range_gen'}
+
+
+def grid_compare(case, impl, model):
+    """None = agree; 'not_judged' = the uniform grid touches exactly and float rounding of f_min + i*spacing decided
+    the overlap test (tie rule); else a description of the disagreement"""
+    if impl.startswith('E:') or model.startswith('E:'):
+        if impl == model:
+            return None
+        n = grid_spec_n(case)
+        if case['sp'] > 0 and n is not None and n >= 0 and impl == 'E:SpectrumError:overlap' and not grid_exact(case, n):
+            return 'not_judged'
+        return f'implementation {impl[:60]} / model {model[:60]}'
+    ni, fi = impl.split(';')
+    nm, fm = model.split(';')
+    if ni != nm:
+        return f'number of channels {ni} / model {nm}'
+    fi = [float(x) for x in fi.split(',')] if fi else []
+    fm = [Fraction(x) for x in fm.split(',')] if fm else []
+    for k, (a, b) in enumerate(zip(fi, fm)):
+        if abs(Fraction(a) - b) > abs(b) * Fraction(1, 10 ** 12):
+            return f'frequency #{k + 1}: {a} / model {float(b)}'
+    return None
 
 
 def outcome_key(line):
@@ -1304,9 +1575,10 @@ def case_bands(case):
     k = case['kind']
     if k == 'demux':
         return [case['band']]
-    if k == 'fcr':
+    if k in ('fcr', 'fcrg'):
         return [[b.get('f_min'), b.get('f_max'), b.get('spacing')] for a in case['amps'] for b in a] + \
-               [[case['dmin'], case['dmax'], case['dsp']]]
+               [[case['dmin'], case['dmax'], case['dsp']]] + \
+               [[b.get('f_min'), b.get('f_max'), b.get('spacing')] for b in (case.get('ddb') or [])]
     if k in ('filter', 'fpath', 'net'):
         return path_band_edges(case['path']) + [case['si']]
     if k == 'elem':
@@ -1351,7 +1623,8 @@ def run(ctx):
     else:
         n = {'mk': ctx.scale(220, 3000), 'demux': ctx.scale(80, 1200), 'mux': ctx.scale(80, 1200),
              'fcr': ctx.scale(220, 3000), 'filter': ctx.scale(80, 1200), 'elem': ctx.scale(120, 1600),
-             'fpath': ctx.scale(120, 1600)}
+             'fpath': ctx.scale(120, 1600), 'cts': ctx.scale(100, 1200), 'cols': ctx.scale(40, 400),
+             'grid': ctx.scale(120, 1500), 'fcrg': ctx.scale(120, 1500)}
         for k in KINDS:
             cases += [gen_case(rng, k) for _ in range(n[k])]
     # network-level cases
@@ -1460,6 +1733,13 @@ def run(ctx):
         print(f'[t] coq_eval {_t.time() - t0:.1f}s')
     for (c, impl), model in zip(meta, lines):
         m = canon_hist(canon_model(model))
+        if c['kind'] == 'grid':
+            verdict = grid_compare(c, impl, m)
+            if verdict == 'not_judged':
+                ctx.count('grid_float_rounding_not_judged')
+            elif verdict:
+                ctx.corr_break(CORR['grid'], verdict, c, impl=impl[:200], model=m[:200])
+            continue
         if m != impl:
             a, b = impl.split('|'), m.split('|')
             k = next((i for i in range(min(len(a), len(b))) if a[i] != b[i]), min(len(a), len(b)))
